@@ -8,6 +8,7 @@ import (
 	"path/filepath"
 	"sort"
 	"strings"
+	"time"
 )
 
 // Tag is one comment tag line.
@@ -60,6 +61,11 @@ type PreFile struct {
 	Path    string `json:"path"` // relative to the module root
 	Content string `json:"content"`
 	Symlink string `json:"symlink,omitempty"` // if set: a symlink with this target
+	// Age: what the file's clock says: "" now, "old" years ago (a file parked long ago, unpacked from an
+	// archive), "future" (written by a machine whose clock is ahead)
+	Age string `json:"age,omitempty"`
+	// ReadOnly: mode 0444 (a file from a read-only checkout or the module cache)
+	ReadOnly bool `json:"read_only,omitempty"`
 }
 
 // PkgSpec is one package.
@@ -390,6 +396,29 @@ func (m *ModuleSpec) Materialise(root string) error {
 			return err
 		}
 		if err := os.Symlink(target, p); err != nil {
+			return err
+		}
+	}
+	for k, pf := range m.Pre {
+		if pf.Symlink != "" {
+			continue
+		}
+		p := filepath.Join(root, pf.Path)
+		if pf.ReadOnly {
+			if err := os.Chmod(p, 0o444); err != nil {
+				return err
+			}
+		}
+		var t time.Time
+		switch pf.Age {
+		case "old":
+			t = time.Date(2019, 5, 6, 7, 8, 9, 0, time.UTC).Add(time.Duration(k) * time.Hour)
+		case "future":
+			t = time.Date(2037, 5, 6, 7, 8, 9, 0, time.UTC).Add(time.Duration(k) * time.Hour)
+		default:
+			continue
+		}
+		if err := os.Chtimes(p, t, t); err != nil {
 			return err
 		}
 	}
